@@ -870,4 +870,341 @@ theorem normalize_single_kept (U : UData) (F : Font) (K : Consts) (fuel pref : N
   simp only [cgjRound_single, ite_self]
 
 
+/-! ## Part 6: the reorder round -/
+
+/-- a record without its cluster and mask (what the reorder round does not permute freely) -/
+def strip (i : Info) : Info := { i with cluster := 0, mask := 0 }
+
+theorem strip_setCluster (K : Consts) (i : Info) (c : Nat) : strip (setCluster K i c) = strip i := by
+  unfold setCluster strip; split <;> rfl
+
+theorem mcc_setCluster (K : Consts) (i : Info) (c : Nat) : (setCluster K i c).mcc = i.mcc := by
+  unfold setCluster; split <;> rfl
+
+theorem mcc_strip (i : Info) : (strip i).mcc = i.mcc := rfl
+
+theorem map_strip_setCluster (K : Consts) (l : List Info) (c : Nat) :
+    (l.map (setCluster K · c)).map strip = l.map strip := by
+  simp [List.map_map, Function.comp_def, strip_setCluster]
+
+/-- stable insertion from the right: `x` goes after every element that is not greater -/
+def insertRight (seg : List Info) (x : Info) : List Info :=
+  (seg.reverse.dropWhile (fun y => y.mcc > x.mcc)).reverse ++
+    x :: (seg.reverse.takeWhile (fun y => y.mcc > x.mcc)).reverse
+
+/-- insertion sort, left to right -/
+def insertAll : List Info → List Info → List Info
+  | seg, [] => seg
+  | seg, x :: xs => insertAll (insertRight seg x) xs
+
+theorem takeWhile_map_strip (v : Nat) (l : List Info) :
+    (l.map strip).takeWhile (fun y => y.mcc > v) = (l.takeWhile (fun y => y.mcc > v)).map strip := by
+  induction l with
+  | nil => rfl
+  | cons a l ih =>
+    simp only [List.map_cons, List.takeWhile_cons, mcc_strip]
+    by_cases h : a.mcc > v <;> simp [h, ih]
+
+theorem dropWhile_map_strip (v : Nat) (l : List Info) :
+    (l.map strip).dropWhile (fun y => y.mcc > v) = (l.dropWhile (fun y => y.mcc > v)).map strip := by
+  induction l with
+  | nil => rfl
+  | cons a l ih =>
+    simp only [List.map_cons, List.dropWhile_cons, mcc_strip]
+    by_cases h : a.mcc > v <;> simp [h, ih]
+
+theorem insertRight_strip (seg : List Info) (x : Info) :
+    insertRight (seg.map strip) (strip x) = (insertRight seg x).map strip := by
+  unfold insertRight
+  rw [mcc_strip, ← List.map_reverse, takeWhile_map_strip, dropWhile_map_strip]
+  simp only [List.map_append, List.map_cons, List.map_reverse]
+
+theorem takeWhile_append_drop_length {α : Type} (p : α → Bool) (l : List α) :
+    l.takeWhile p ++ l.drop (l.takeWhile p).length = l := by
+  induction l with
+  | nil => rfl
+  | cons a l ih =>
+    simp only [List.takeWhile_cons]
+    by_cases h : p a <;> simp [h, ih]
+
+theorem rotateRight1_snoc (l : List Info) (x : Info) : rotateRight1 (l ++ [x]) = x :: l := by
+  unfold rotateRight1
+  simp
+
+theorem sortStep_strip (K : Consts) (seg : List Info) (x : Info) (tl : List Info) :
+    (sortStep K seg x tl).1.map strip = insertRight (seg.map strip) (strip x) ∧
+    (sortStep K seg x tl).2.map strip = tl.map strip := by
+  rw [insertRight_strip]
+  unfold sortStep insertRight
+  simp only
+  have hsplit : seg = (seg.reverse.dropWhile (fun y => y.mcc > x.mcc)).reverse ++
+      (seg.reverse.takeWhile (fun y => y.mcc > x.mcc)).reverse := by
+    rw [← List.reverse_append, List.takeWhile_append_dropWhile, List.reverse_reverse]
+  split
+  · rename_i hm
+    rw [hm, List.append_nil] at hsplit
+    constructor
+    · rw [← hsplit]
+      have hm' : seg.reverse.takeWhile (fun y => decide (y.mcc > x.mcc)) = [] := List.reverse_eq_nil_iff.mp hm
+      simp [hm']
+    · rfl
+  · rename_i m ms hm
+    rw [hm]
+    constructor
+    · simp only [mergeClusters]
+      have : (m :: (ms ++ [x])).map (setCluster K · (minCluster m.cluster (ms ++ [x]))) =
+          ((m :: ms).map (setCluster K · (minCluster m.cluster (ms ++ [x])))) ++
+            [setCluster K x (minCluster m.cluster (ms ++ [x]))] := by simp
+      rw [this, rotateRight1_snoc]
+      simp only [List.map_append, List.map_cons, strip_setCluster, map_strip_setCluster]
+    · simp only [mergeClusters]
+      split
+      · rw [List.map_append, map_strip_setCluster, ← List.map_append, takeWhile_append_drop_length]
+      · simp
+
+theorem sortGo_strip (K : Consts) (seg : List Info) (n : Nat) (tl : List Info) (h : n ≤ tl.length) :
+    (sortGo K seg n tl).map strip =
+      insertAll (seg.map strip) ((tl.take n).map strip) ++ (tl.drop n).map strip := by
+  induction n generalizing seg tl with
+  | zero => simp [sortGo, insertAll]
+  | succ n ih =>
+    cases tl with
+    | nil => simp at h
+    | cons x tl =>
+      simp only [sortGo]
+      have hs := sortStep_strip K seg x tl
+      rw [ih _ _ (by rw [length_sortStep]; simpa using h)]
+      rw [hs.1, List.map_take, List.map_drop, hs.2]
+      simp [insertAll]
+
+/-! ### the pure insertion sort is a stable sort by modified ccc -/
+
+theorem insertRight_perm (seg : List Info) (x : Info) : (insertRight seg x).Perm (seg ++ [x]) := by
+  unfold insertRight
+  have hsplit : seg = (seg.reverse.dropWhile (fun y => y.mcc > x.mcc)).reverse ++
+      (seg.reverse.takeWhile (fun y => y.mcc > x.mcc)).reverse := by
+    rw [← List.reverse_append, List.takeWhile_append_dropWhile, List.reverse_reverse]
+  generalize (seg.reverse.dropWhile (fun y => y.mcc > x.mcc)).reverse = k at hsplit
+  generalize (seg.reverse.takeWhile (fun y => y.mcc > x.mcc)).reverse = m at hsplit
+  subst hsplit
+  rw [List.append_assoc]
+  refine List.Perm.append_left k ?_
+  have := List.perm_append_comm (l₁ := [x]) (l₂ := m)
+  simpa using this
+
+theorem insertAll_perm (seg xs : List Info) : (insertAll seg xs).Perm (seg ++ xs) := by
+  induction xs generalizing seg with
+  | nil => simp [insertAll]
+  | cons x xs ih =>
+    simp only [insertAll]
+    refine (ih _).trans ?_
+    have := (insertRight_perm seg x).append_right xs
+    simpa using this
+
+theorem mem_takeWhile_imp {α : Type} (p : α → Bool) (l : List α) : ∀ x ∈ l.takeWhile p, p x = true := by
+  induction l with
+  | nil => intro x hx; cases hx
+  | cons a l ih =>
+    intro x hx
+    simp only [List.takeWhile_cons] at hx
+    by_cases h : p a
+    · simp only [h, ↓reduceIte, List.mem_cons] at hx
+      rcases hx with hx | hx
+      · subst hx; exact h
+      · exact ih x hx
+    · simp [h] at hx
+
+/-- the two halves `insertRight` splits the sorted prefix into -/
+theorem insertRight_split (seg : List Info) (x : Info) :
+    ∃ k m, seg = k ++ m ∧ insertRight seg x = k ++ x :: m ∧ (∀ b ∈ m, x.mcc < b.mcc) ∧
+      (k = [] ∨ ∃ k' z, k = k' ++ [z] ∧ z.mcc ≤ x.mcc) := by
+  refine ⟨(seg.reverse.dropWhile (fun y => y.mcc > x.mcc)).reverse,
+    (seg.reverse.takeWhile (fun y => y.mcc > x.mcc)).reverse, ?_, rfl, ?_, ?_⟩
+  · rw [← List.reverse_append, List.takeWhile_append_dropWhile, List.reverse_reverse]
+  · intro b hb
+    have := mem_takeWhile_imp _ _ b (List.mem_reverse.mp hb)
+    simpa using this
+  · cases hd : seg.reverse.dropWhile (fun y => y.mcc > x.mcc) with
+    | nil => left; rfl
+    | cons z d =>
+      right
+      refine ⟨d.reverse, z, by simp, ?_⟩
+      have hne : seg.reverse.dropWhile (fun y => decide (y.mcc > x.mcc)) ≠ [] := by rw [hd]; simp
+      have := List.head_dropWhile_not (fun y : Info => decide (y.mcc > x.mcc)) hne
+      simp only [hd, List.head_cons, decide_eq_false_iff_not] at this
+      omega
+
+def SortedMcc (l : List Info) : Prop := l.Pairwise (fun a b => a.mcc ≤ b.mcc)
+
+theorem insertRight_sorted (seg : List Info) (x : Info) (h : SortedMcc seg) : SortedMcc (insertRight seg x) := by
+  obtain ⟨k, m, e1, e2, hm, hk⟩ := insertRight_split seg x
+  rw [e2]
+  subst e1
+  unfold SortedMcc at *
+  rw [List.pairwise_append] at h ⊢
+  obtain ⟨h1, h2, h3⟩ := h
+  have hkx : ∀ a ∈ k, a.mcc ≤ x.mcc := by
+    rcases hk with hk | ⟨k', z, hk, hz⟩
+    · subst hk; intro a ha; cases ha
+    · subst hk
+      intro a ha
+      rw [List.pairwise_append] at h1
+      simp only [List.mem_append, List.mem_singleton] at ha
+      rcases ha with ha | ha
+      · have := h1.2.2 a ha z (by simp); omega
+      · subst ha; exact hz
+  refine ⟨h1, ?_, ?_⟩
+  · rw [List.pairwise_cons]
+    exact ⟨fun b hb => Nat.le_of_lt (hm b hb), h2⟩
+  · intro a ha b hb
+    simp only [List.mem_cons] at hb
+    rcases hb with hb | hb
+    · subst hb; exact hkx a ha
+    · exact h3 a ha b hb
+
+theorem insertAll_sorted (seg xs : List Info) (h : SortedMcc seg) : SortedMcc (insertAll seg xs) := by
+  induction xs generalizing seg with
+  | nil => exact h
+  | cons x xs ih => exact ih _ (insertRight_sorted seg x h)
+
+theorem insertRight_stable (seg : List Info) (x : Info) (c : Nat) :
+    (insertRight seg x).filter (fun y => y.mcc == c) = (seg ++ [x]).filter (fun y => y.mcc == c) := by
+  obtain ⟨k, m, e1, e2, hm, _⟩ := insertRight_split seg x
+  rw [e2]
+  subst e1
+  simp only [List.filter_append, List.filter_cons, List.filter_nil]
+  by_cases hx : x.mcc = c
+  · have : m.filter (fun y => y.mcc == c) = [] := by
+      rw [List.filter_eq_nil_iff]
+      intro a ha
+      have := hm a ha
+      simp only [beq_iff_eq]; omega
+    simp [hx, this]
+  · simp [hx]
+
+theorem insertAll_stable (seg xs : List Info) (c : Nat) :
+    (insertAll seg xs).filter (fun y => y.mcc == c) = (seg ++ xs).filter (fun y => y.mcc == c) := by
+  induction xs generalizing seg with
+  | nil => simp [insertAll]
+  | cons x xs ih =>
+    simp only [insertAll]
+    rw [ih, List.filter_append, insertRight_stable, ← List.filter_append]
+    simp
+
+/-! ### the reorder round against the canonical ordering spec -/
+
+/-- UAX #15 canonical ordering (stable sort of every maximal run of characters with non-zero combining
+    class), with the modified classes and the crate's cap: a run of more than `maxMarks` is left alone. -/
+def canonReorder (maxMarks : Nat) : List Info → List Info
+  | [] => []
+  | x :: r =>
+    if x.mcc = 0 then x :: canonReorder maxMarks r
+    else
+      (if 1 + (r.takeWhile (fun i => i.mcc ≠ 0)).length ≤ maxMarks
+        then insertAll [] (x :: r.takeWhile (fun i => i.mcc ≠ 0))
+        else x :: r.takeWhile (fun i => i.mcc ≠ 0)) ++
+      canonReorder maxMarks (r.dropWhile (fun i => i.mcc ≠ 0))
+termination_by l => l.length
+decreasing_by
+  · simp
+  · have := length_dropWhile_le (fun i => i.mcc ≠ 0) r
+    simp only [List.length_cons]; omega
+
+theorem takeWhile_nz_strip (l : List Info) :
+    (l.map strip).takeWhile (fun i => i.mcc ≠ 0) = (l.takeWhile (fun i => i.mcc ≠ 0)).map strip := by
+  rw [List.takeWhile_map]; rfl
+
+theorem dropWhile_nz_strip (l : List Info) :
+    (l.map strip).dropWhile (fun i => i.mcc ≠ 0) = (l.dropWhile (fun i => i.mcc ≠ 0)).map strip := by
+  rw [List.dropWhile_map]; rfl
+
+theorem canonReorder_head_zero (maxMarks : Nat) (d : List Info)
+    (h : ∀ y t, d = y :: t → y.mcc = 0) :
+    d.take 1 ++ canonReorder maxMarks (d.drop 1) = canonReorder maxMarks d := by
+  cases d with
+  | nil => simp [canonReorder]
+  | cons y t =>
+    have := h y t rfl
+    rw [canonReorder]
+    simp [this]
+
+theorem dropWhile_nz_head (r : List Info) : ∀ y t, r.dropWhile (fun i => i.mcc ≠ 0) = y :: t → y.mcc = 0 := by
+  intro y t h
+  have hne : r.dropWhile (fun i => decide (i.mcc ≠ 0)) ≠ [] := by rw [h]; simp
+  have := List.head_dropWhile_not (fun i : Info => decide (i.mcc ≠ 0)) hne
+  simp only [h, List.head_cons, decide_eq_false_iff_not, ne_eq, Decidable.not_not] at this
+  exact this
+
+theorem insertAll_length (seg xs : List Info) : (insertAll seg xs).length = seg.length + xs.length := by
+  rw [(insertAll_perm seg xs).length_eq, List.length_append]
+
+theorem round2_strip (K : Consts) (l : List Info) :
+    (round2 K l).map strip = canonReorder K.maxMarks (l.map strip) := by
+  fun_induction round2 K l with
+  | case1 => simp [canonReorder]
+  | case2 x r hx ih =>
+    rw [List.map_cons, List.map_cons, canonReorder]
+    simp [mcc_strip, hx, ih]
+  | case3 x r hx ih =>
+    have hsplit : x :: r = (x :: r.takeWhile (fun i => i.mcc ≠ 0)) ++ r.dropWhile (fun i => i.mcc ≠ 0) := by
+      simp [List.takeWhile_append_dropWhile]
+    have htake : (x :: r).take (runLen r) = x :: r.takeWhile (fun i => i.mcc ≠ 0) := by
+      conv => lhs; rw [hsplit]
+      rw [List.take_left' (by simp [runLen]; omega)]
+    have hdrop : (x :: r).drop (runLen r) = r.dropWhile (fun i => i.mcc ≠ 0) := by
+      conv => lhs; rw [hsplit]
+      rw [List.drop_left' (by simp [runLen]; omega)]
+    -- the sorted buffer, stripped
+    have hM : ∃ S, S.length = runLen r ∧
+        (sortRun K (runLen r) (x :: r)).map strip = S ++ (r.dropWhile (fun i => i.mcc ≠ 0)).map strip ∧
+        S = (if 1 + ((r.map strip).takeWhile (fun i => i.mcc ≠ 0)).length ≤ K.maxMarks
+          then insertAll [] (strip x :: (r.map strip).takeWhile (fun i => i.mcc ≠ 0))
+          else strip x :: (r.map strip).takeWhile (fun i => i.mcc ≠ 0)) := by
+      unfold sortRun
+      rw [takeWhile_nz_strip]
+      simp only [List.length_map]
+      have hn : runLen r = 1 + (r.takeWhile (fun i => i.mcc ≠ 0)).length := rfl
+      by_cases hle : runLen r ≤ K.maxMarks
+      · rw [if_pos hle, if_pos (hn ▸ hle)]
+        refine ⟨_, ?_, ?_, rfl⟩
+        · rw [insertAll_length]; simp [runLen]; omega
+        · rw [sortGo_strip K [] _ _ (runLen_le x r), htake, hdrop]
+          simp
+      · rw [if_neg hle, if_neg (hn ▸ hle)]
+        refine ⟨_, ?_, ?_, rfl⟩
+        · simp [runLen]; omega
+        · conv => lhs; rw [hsplit]
+          rw [List.map_append, List.map_cons]
+    obtain ⟨S, hS, hM, hSdef⟩ := hM
+    rw [List.map_append, List.map_take, ih, List.map_drop, hM]
+    have e1 : (S ++ (r.dropWhile (fun i => i.mcc ≠ 0)).map strip).take (runLen r + 1) =
+        S ++ ((r.dropWhile (fun i => i.mcc ≠ 0)).map strip).take 1 := by
+      rw [List.take_append, hS]; simp [List.take_of_length_le (Nat.le_succ_of_le (Nat.le_of_eq hS))]
+    have e2 : (S ++ (r.dropWhile (fun i => i.mcc ≠ 0)).map strip).drop (runLen r + 1) =
+        ((r.dropWhile (fun i => i.mcc ≠ 0)).map strip).drop 1 := by
+      rw [List.drop_append, hS]; simp [List.drop_of_length_le (Nat.le_succ_of_le (Nat.le_of_eq hS))]
+    rw [e1, e2, List.append_assoc, canonReorder_head_zero]
+    · rw [List.map_cons, canonReorder]
+      simp only [mcc_strip, hx, ↓reduceIte]
+      rw [← hSdef, dropWhile_nz_strip]
+    · intro y t hyt
+      rw [← dropWhile_nz_strip] at hyt
+      exact dropWhile_nz_head _ y t hyt
+
+
+theorem canonReorder_perm (maxMarks : Nat) (l : List Info) : (canonReorder maxMarks l).Perm l := by
+  fun_induction canonReorder maxMarks l with
+  | case1 => exact List.Perm.refl _
+  | case2 x r hx ih => exact List.Perm.cons x ih
+  | case3 x r hx ih =>
+    have hsplit : x :: r = (x :: r.takeWhile (fun i => i.mcc ≠ 0)) ++ r.dropWhile (fun i => i.mcc ≠ 0) := by
+      simp [List.takeWhile_append_dropWhile]
+    conv => rhs; rw [hsplit]
+    refine List.Perm.append ?_ ih
+    split
+    · have := insertAll_perm [] (x :: r.takeWhile (fun i => i.mcc ≠ 0))
+      simpa using this
+    · exact List.Perm.refl _
+
+
 end RbModel.Norm
